@@ -4,6 +4,7 @@ import (
 	"bytes"
 	"crypto/sha512"
 	"fmt"
+	"os"
 	"sync/atomic"
 	"testing"
 
@@ -25,7 +26,7 @@ func TestC17(t *testing.T) {
 	if !want(t, "C17") {
 		return
 	}
-	r := ev.Start("C17", "exploration")
+	r := ev.StartPart("C17", "exploration", os.Getenv("VERIF_PART"))
 	var evals, nontrivial int64
 	seenIDs := map[[64]byte]string{}
 
